@@ -20,7 +20,10 @@ Three layers, each following the code program point by program point:
 
 The world that `main` looks at is the parameter `Env`: `num_cpus::get()`, `canonicalize_path` of
 the source directory, `Path::is_dir` of the output path, readability of the `--path-mapping` file.
-Outside the model: `LLVM_PATH`, the tcmalloc feature, the text of log lines, what happens inside
+Also in the plan: the resolution of the external tools (`llvmToolPath`: `--llvm-path`, else the
+rustc sysroot; the environment variable `LLVM_PATH` is NOT read; `GCOV`), the route of every
+notes file (`--llvm` or an LLVM header ⇒ in-process reader, else the gcov tool) and the log target
+with its fall-back. Outside the model: the tcmalloc feature, the text of log lines, what happens inside
 the library calls (their own models: Pipeline, Producer, Consumer, Rewrite, Writers) — in
 particular a run whose inputs contain no usable file ends in the producer (`No input files found`,
 exit 1) whatever the plan says.
@@ -233,6 +236,20 @@ structure Env where
   isDir : Bytes → Bool
   /-- the `--path-mapping` file can be opened and holds JSON -/
   mappingReadable : Bytes → Bool
+  /-- `<sysroot>/lib/rustlib/<host>/bin` as answered by `$RUSTC` (default `rustc`)
+  `--print sysroot` / `-vV` (llvm_tools.rs 183-200); `none`: rustc cannot be run -/
+  rustlibBin : Option Bytes := none
+  /-- the ENVIRONMENT variable `LLVM_PATH`. `LLVM_PATH` in the code is a `static OnceLock` that only
+  `--llvm-path` sets (main.rs 315-317): the variable is never read. Kept here to state that. -/
+  envLlvmPath : Option Bytes := none
+  /-- `Path::exists` of a tool path -/
+  toolExists : Bytes → Bool := fun _ => false
+  /-- the environment variable `GCOV` (gcov.rs 27-33) -/
+  envGcov : Option Bytes := none
+  /-- `File::create` of the `--log` value succeeds -/
+  logCreatable : Bytes → Bool := fun _ => true
+  /-- the first eight bytes of every `.gcno` the producer will find, in any order -/
+  gcnoHeaders : List Bytes := []
 
 /-! ### the plan -/
 
@@ -269,6 +286,29 @@ deriving DecidableEq, Repr
 
 inductive LogTarget where
   | stdout | stderr | file (p : Bytes)
+  /-- the file cannot be created: the terminal logger on stderr, and one error line saying so -/
+  | stderrFallback (p : Bytes)
+deriving DecidableEq, Repr
+
+/-- the two LLVM tools of source-based coverage (llvm_tools.rs 208-236) -/
+inductive LlvmTool where
+  | profdata | cov
+deriving DecidableEq, Repr
+
+def LlvmTool.exe : LlvmTool → Bytes
+  | .profdata => [108, 108, 118, 109, 45, 112, 114, 111, 102, 100, 97, 116, 97]     -- "llvm-profdata"
+  | .cov => [108, 108, 118, 109, 45, 99, 111, 118]                                  -- "llvm-cov"
+
+/-- outcome of `get_profdata_path` / `get_cov_path` -/
+inductive ToolRes where
+  | found (p : Bytes)
+  | notFound (p : Bytes)     -- "We couldn't find llvm-…": the profile item is skipped with an error line
+  | noRustc                  -- the sysroot cannot be asked for: same effect
+deriving DecidableEq, Repr
+
+/-- where a notes file goes: the in-process reader (LLVM format) or the external gcov tool -/
+inductive GcnoRoute where
+  | buffers | gcovTool
 deriving DecidableEq, Repr
 
 structure CoverallsArgs where
@@ -341,6 +381,14 @@ structure Plan where
   rewrite : RewriteArgs
   fileFilter : FileFilterArgs
   outputs : List Output
+  /-- `--llvm-path`, stored in the static `LLVM_PATH` before anything else runs -/
+  llvmPath : Option Bytes
+  profdataTool : ToolRes
+  covTool : ToolRes
+  /-- the command `run_gcov` starts -/
+  gcovExe : Bytes
+  /-- one route per notes file of `Env.gcnoHeaders` -/
+  gcnoRoutes : List GcnoRoute
 deriving DecidableEq, Repr
 
 inductive PanicSite where
@@ -363,9 +411,45 @@ def filterOption : Option Filter → Option Bool
   | some .covered => some true
   | some .uncovered => some false
 
-/-- main.rs 323-353 (a log file that cannot be created falls back to stderr: not modelled) -/
-def logTarget (p : Bytes) : LogTarget :=
-  if p = bStdout then .stdout else if p = bStderr then .stderr else .file p
+/-- main.rs 323-353: the literal values `stdout` / `stderr`, else a file; a file that cannot be
+created falls back to stderr -/
+def logTarget (env : Env) (p : Bytes) : LogTarget :=
+  if p = bStdout then .stdout else if p = bStderr then .stderr
+  else if env.logCreatable p then .file p else .stderrFallback p
+
+/-- where log lines go -/
+inductive Stream where
+  | out | err | file (p : Bytes)
+deriving DecidableEq, Repr
+
+def LogTarget.stream : LogTarget → Stream
+  | .stdout => .out
+  | .stderr => .err
+  | .file p => .file p
+  | .stderrFallback _ => .err
+
+/-- `get_profdata_path` / `get_cov_path` (llvm_tools.rs 208-236): the directory is `--llvm-path`
+when given — and then ONLY that, there is no fall-back — else the rustc sysroot's tool directory -/
+def llvmToolPath (env : Env) (o : Opts) (t : LlvmTool) : ToolRes :=
+  match o.rest.llvmPath with
+  | some d => let p := push d t.exe; if env.toolExists p then .found p else .notFound p
+  | none =>
+    match env.rustlibBin with
+    | none => .noRustc
+    | some d => let p := push d t.exe; if env.toolExists p then .found p else .notFound p
+
+def bGcov : Bytes := [103, 99, 111, 118]
+
+/-- gcov.rs 27-33 -/
+def gcovExe (env : Env) : Bytes := env.envGcov.getD bGcov
+
+/-- `Archive::is_gcno_llvm` (producer.rs 115-120): magic `oncg`, `*`, version `204` or `804` -/
+def headerIsLlvm (h : Bytes) : Bool :=
+  h.take 8 == [111, 110, 99, 103, 42, 50, 48, 52] || h.take 8 == [111, 110, 99, 103, 42, 56, 48, 52]
+
+/-- producer.rs 69 and 319-396: `llvm = is_llvm || is_gcno_llvm(file)` -/
+def gcnoRoute (isLlvm : Bool) (header : Bytes) : GcnoRoute :=
+  if isLlvm || headerIsLlvm header then .buffers else .gcovTool
 
 /-- main.rs 384: `opt.threads.unwrap_or_else(|| 1.max(num_cpus::get() - 1))` -/
 def threadsOf (env : Env) (o : Opts) : Nat :=
@@ -451,7 +535,7 @@ def consumersOf (o : Opts) (sr : Option Bytes) (threads : Nat) : List ConsumerAr
 
 def mkPlan (env : Env) (o : Opts) (sr : Option Bytes) (ms : MappingSrc) (ob : Option Bytes) : Plan :=
   let threads := threadsOf env o
-  { log := logTarget o.log
+  { log := logTarget env o.log
     logLevel := o.logLevel
     threads := threads
     queueCap := 2 * threads
@@ -466,7 +550,12 @@ def mkPlan (env : Env) (o : Opts) (sr : Option Bytes) (ms : MappingSrc) (ob : Op
                  filter := filterOption o.filter }
     fileFilter := ⟨o.rest.exclLine, o.rest.exclStart, o.rest.exclStop, o.rest.exclBrLine,
                    o.rest.exclBrStart, o.rest.exclBrStop⟩
-    outputs := o.outputTypes.map (outputOf env o sr threads ob) }
+    outputs := o.outputTypes.map (outputOf env o sr threads ob)
+    llvmPath := o.rest.llvmPath
+    profdataTool := llvmToolPath env o .profdata
+    covTool := llvmToolPath env o .cov
+    gcovExe := gcovExe env
+    gcnoRoutes := env.gcnoHeaders.map (gcnoRoute o.rest.llvm) }
 
 /-- what main does with the libraries, or the point at which the run ends without a report; the
 checks come in the order of the code (source dir → pipeline → output path) -/
